@@ -5,7 +5,7 @@
    traversed_bytes/traversed_chars, the comment-leader line loops, the ignore markers and the shebang line, Go directives, the
    Literate Haskell masker, the git-commit cut).  WHICH nodes/events are prose is decided by third-party parsers and is reached by
    the constructed-ground-truth search of harness/src/bin/c04.rs, not by these theorems. *)
-Require Import Base Mask MaskProofs MaskFrontends Tables_masks.
+Require Import Base Mask MaskProofs MaskFrontends Tables_masks C04JavaDoc C04JavaDocProofs.
 
 (* ---- UTF-8: encode/decode round trip; char count; a byte offset on a char boundary is the byte
         length of a prefix of the text, and the char index computed by counting is that prefix's length *)
@@ -488,6 +488,128 @@ Check C04_git_commit_cut : forall src : text,
     forall inner, git_commit_parse inner src = Ok (inner (firstn e src)).
 Print Assumptions C04_git_commit_cut.
 
+(* ---- JavaDoc / JSDoc glue (phase 3).  jsdoc.rs parse_inline_tag: Some p iff the slice starts with `{` `@` Word and has a
+   `}` later; p = the number of tokens through the FIRST `}` (so p <= the slice length: the marking range is in bounds) *)
+Theorem C04_inline_tag_shape : forall l p, parse_inline_tag l = Some p ->
+  exists a b c mid cl post, l = a :: b :: c :: mid ++ cl :: post /\ p = 4 + length mid /\
+    is_open_curly a = true /\ is_at b = true /\ is_word c = true /\ is_close_curly cl = true /\
+    Forall (fun t => is_close_curly t = false) mid.
+Proof. exact parse_inline_tag_shape. Qed.
+Check C04_inline_tag_shape : forall l p, parse_inline_tag l = Some p ->
+  exists a b c mid cl post, l = a :: b :: c :: mid ++ cl :: post /\ p = 4 + length mid /\
+    is_open_curly a = true /\ is_at b = true /\ is_word c = true /\ is_close_curly cl = true /\
+    Forall (fun t => is_close_curly t = false) mid.
+Print Assumptions C04_inline_tag_shape.
+
+(* ---- mark_inline_tags (the cursor loop in which F4 hung): with fuel |tokens|+1 it never runs out of fuel and never
+   panics (the range tokens[cursor..cursor+p] is in bounds), and equals the one-pass structural function mit_s: a
+   token is rewritten to Unlintable iff it belongs to an inline tag `{ @ Word .. }` that starts at an OpenCurly not
+   already inside an earlier tag; spans are never touched *)
+Theorem C04_inline_tags_exact : forall l, mark_inline_tags l = Ok (mit_s 0 l).
+Proof. exact mark_inline_tags_exact. Qed.
+Check C04_inline_tags_exact : forall l, mark_inline_tags l = Ok (mit_s 0 l).
+Print Assumptions C04_inline_tags_exact.
+
+(* ---- JavaDoc's `for i in 3..tokens.len()` loop with its four checked index reads/writes never panics and equals the
+   structural pass jd_s: at a window `@` Word Space Word exactly these four tokens become Unlintable — the tag
+   and ONE following word (FC04i: `@param xq_1` leaves `_1` lintable) — and the pass resumes right behind it; any other
+   token is kept as it is *)
+Theorem C04_javadoc_tag_window : forall l, jd_tags l = Ok (jd_s 0 l) /\
+  forall a b c d r, jd_s 0 (a :: b :: c :: d :: r) =
+    if match4 a b c d then unl a :: unl b :: unl c :: unl d :: jd_s 0 r else a :: jd_s 0 (b :: c :: d :: r).
+Proof. exact (fun l => conj (jd_tags_exact l) jd_s_window). Qed.
+Check C04_javadoc_tag_window : forall l, jd_tags l = Ok (jd_s 0 l) /\
+  forall a b c d r, jd_s 0 (a :: b :: c :: d :: r) =
+    if match4 a b c d then unl a :: unl b :: unl c :: unl d :: jd_s 0 r else a :: jd_s 0 (b :: c :: d :: r).
+Print Assumptions C04_javadoc_tag_window.
+
+(* ---- JavaDoc::parse is total — no panic, no fuel exhaustion, for ANY html parser — and is exactly: the html parse of
+   the comment without initiators; Star/Space runs behind a Newline removed (remove_indices over the index queue =
+   the filter jd_strip); every span shifted by the initiators' length; inline tags, then @tag windows marked *)
+Theorem C04_javadoc_exact : forall (is_whitespace : N -> bool) (html : text -> list tok) (src : text),
+  exists actual, without_initiators is_whitespace src = Ok actual /\
+    sstart actual <= send actual <= length src /\
+    javadoc_parse is_whitespace html src = Ok (javadoc_spec html src actual).
+Proof. exact javadoc_parse_exact. Qed.
+Check C04_javadoc_exact : forall (is_whitespace : N -> bool) (html : text -> list tok) (src : text),
+  exists actual, without_initiators is_whitespace src = Ok actual /\
+    sstart actual <= send actual <= length src /\
+    javadoc_parse is_whitespace html src = Ok (javadoc_spec html src actual).
+Print Assumptions C04_javadoc_exact.
+
+(* ---- every JavaDoc token is a token of the html parse of source[a..b) (the comment without /** and */) at its true
+   position: span shifted by a, kind unchanged or Unlintable, inside [a, b), same text in the file as in the
+   inner parse *)
+Theorem C04_javadoc_offsets : forall (is_whitespace : N -> bool) (html : text -> list tok),
+  (forall c t0, In t0 (html c) -> sstart (tspan t0) <= send (tspan t0)) ->
+  (forall c t0, In t0 (html c) -> send (tspan t0) <= length c) ->
+  forall (src : text) toks, javadoc_parse is_whitespace html src = Ok toks ->
+  exists actual, without_initiators is_whitespace src = Ok actual /\
+    sstart actual <= send actual <= length src /\
+    let a := sstart actual in let b := send actual in
+    Forall (fun tk => exists t0, In t0 (html (slice src a b)) /\ tspan tk = push_by (tspan t0) a /\
+              (tkind tk = tkind t0 \/ tkind tk = K_UNLINTABLE) /\
+              a <= sstart (tspan tk) /\ sstart (tspan tk) <= send (tspan tk) /\ send (tspan tk) <= b /\
+              slice src (sstart (tspan tk)) (send (tspan tk))
+              = slice (slice src a b) (sstart (tspan t0)) (send (tspan t0))) toks.
+Proof. exact javadoc_offsets. Qed.
+Check C04_javadoc_offsets : forall (is_whitespace : N -> bool) (html : text -> list tok),
+  (forall c t0, In t0 (html c) -> sstart (tspan t0) <= send (tspan t0)) ->
+  (forall c t0, In t0 (html c) -> send (tspan t0) <= length c) ->
+  forall (src : text) toks, javadoc_parse is_whitespace html src = Ok toks ->
+  exists actual, without_initiators is_whitespace src = Ok actual /\
+    sstart actual <= send actual <= length src /\
+    let a := sstart actual in let b := send actual in
+    Forall (fun tk => exists t0, In t0 (html (slice src a b)) /\ tspan tk = push_by (tspan t0) a /\
+              (tkind tk = tkind t0 \/ tkind tk = K_UNLINTABLE) /\
+              a <= sstart (tspan tk) /\ sstart (tspan tk) <= send (tspan tk) /\ send (tspan tk) <= b /\
+              slice src (sstart (tspan tk)) (send (tspan tk))
+              = slice (slice src a b) (sstart (tspan t0)) (send (tspan t0))) toks.
+Print Assumptions C04_javadoc_offsets.
+
+(* ---- conversely the removal pass loses nothing but Star / Space tokens: every other html token is in the result at
+   its place *)
+Theorem C04_javadoc_keeps : forall (is_whitespace : N -> bool) (html : text -> list tok) (src : text) actual t0,
+  without_initiators is_whitespace src = Ok actual ->
+  In t0 (html (slice src (sstart actual) (send actual))) -> is_removable t0 = false ->
+  exists tk, In tk (javadoc_spec html src actual) /\ tspan tk = push_by (tspan t0) (sstart actual) /\
+             (tkind tk = tkind t0 \/ tkind tk = K_UNLINTABLE).
+Proof. exact javadoc_keeps. Qed.
+Check C04_javadoc_keeps : forall (is_whitespace : N -> bool) (html : text -> list tok) (src : text) actual t0,
+  without_initiators is_whitespace src = Ok actual ->
+  In t0 (html (slice src (sstart actual) (send actual))) -> is_removable t0 = false ->
+  exists tk, In tk (javadoc_spec html src actual) /\ tspan tk = push_by (tspan t0) (sstart actual) /\
+             (tkind tk = tkind t0 \/ tkind tk = K_UNLINTABLE).
+Print Assumptions C04_javadoc_keeps.
+
+(* ---- JsDoc::parse with its real post-passes (mark_inline_tags, then everything from the first `@` Word on the line to
+   the line end Unlintable) is the line loop of Mask.v with the structural kind-only pass jsdoc_post_s, and never panics *)
+Theorem C04_jsdoc_exact : forall (is_whitespace : N -> bool) (inner : text -> list tok) src,
+  jsdoc_full_parse is_whitespace inner src = jsdoc_parse is_whitespace inner jsdoc_post_s src /\
+  exists toks, jsdoc_full_parse is_whitespace inner src = Ok toks.
+Proof. exact (fun w i s => conj (jsdoc_full_exact w i s) (jsdoc_full_total w i s)). Qed.
+Check C04_jsdoc_exact : forall (is_whitespace : N -> bool) (inner : text -> list tok) src,
+  jsdoc_full_parse is_whitespace inner src = jsdoc_parse is_whitespace inner jsdoc_post_s src /\
+  exists toks, jsdoc_full_parse is_whitespace inner src = Ok toks.
+Print Assumptions C04_jsdoc_exact.
+
+(* ---- ... and every JsDoc token is a one-char Newline(1) or an inner token of ONE line at line start + leader length +
+   inner offset (kind unchanged or Unlintable), inside the line's without_initiators span, same text in the file *)
+Theorem C04_jsdoc_offsets : forall (is_whitespace : N -> bool) (inner : text -> list tok),
+  (forall c t0, In t0 (inner c) -> sstart (tspan t0) <= send (tspan t0)) ->
+  (forall c t0, In t0 (inner c) -> send (tspan t0) <= length c) ->
+  forall src toks, jsdoc_full_parse is_whitespace inner src = Ok toks ->
+  Forall (fun tk => from_line_kind is_whitespace inner src tk \/
+                    (tkind tk = K_NEWLINE1 /\ send (tspan tk) = sstart (tspan tk) + 1 /\ send (tspan tk) <= length src)) toks.
+Proof. exact jsdoc_full_offsets. Qed.
+Check C04_jsdoc_offsets : forall (is_whitespace : N -> bool) (inner : text -> list tok),
+  (forall c t0, In t0 (inner c) -> sstart (tspan t0) <= send (tspan t0)) ->
+  (forall c t0, In t0 (inner c) -> send (tspan t0) <= length c) ->
+  forall src toks, jsdoc_full_parse is_whitespace inner src = Ok toks ->
+  Forall (fun tk => from_line_kind is_whitespace inner src tk \/
+                    (tkind tk = K_NEWLINE1 /\ send (tspan tk) = sstart (tspan tk) + 1 /\ send (tspan tk) <= length src)) toks.
+Print Assumptions C04_jsdoc_offsets.
+
 (* ---- non-vacuity ---- *)
 (* "é😀 a//b": two multi-byte chars, then a 'comment' at bytes 9..10 *)
 Example C04_utf8_nonvacuous :
@@ -603,4 +725,25 @@ Example C04_lhs_nonvacuous :
   ws_table 62%N = false /\
   lhs_create_mask ws_table true false [62; 32; 98; 10; 10; 99]%N = Ok [mkspan 5 6] /\
   lhs_create_mask ws_table false true [62; 32; 98; 10; 10; 99]%N = Ok [mkspan 2 3].
+Proof. vm_compute. repeat split; reflexivity. Qed.
+
+(* JavaDoc "/** a\n * @param xq b {@link C} */" with a hand-made html token list: the leader " * " behind the newline is
+   removed, `@param xq` (4 tokens) and `{@link C}` (5 tokens) are Unlintable, everything sits at +4 *)
+Example C04_javadoc_nonvacuous :
+  let html := fun c : text =>
+    [T 0 1 5; T 1 2 3; T 2 3 2001; T 3 4 62; T 4 5 2001; T 5 6 61; T 6 11 5; T 11 12 2001; T 12 14 5; T 14 15 2001;
+     T 15 16 5; T 16 17 2001; T 17 18 63; T 18 19 61; T 19 23 5; T 23 24 2001; T 24 25 5; T 25 26 64]%N in
+  let src := [47;42;42;32; 97;10;32;42;32;64;112;97;114;97;109;32;120;113;32;98;32;123;64;108;105;110;107;32;67;125; 32;42;47]%N in
+  without_initiators ws_table src = Ok (mkspan 4 30) /\
+  javadoc_parse ws_table html src =
+    Ok [T 4 5 5; T 5 6 3; T 9 10 2; T 10 15 2; T 15 16 2; T 16 18 2; T 18 19 2001; T 19 20 5; T 20 21 2001;
+        T 21 22 2; T 22 23 2; T 23 27 2; T 27 28 2; T 28 29 2; T 29 30 2]%N /\
+  (* the unterminated tag of F4 "{@ " terminates and marks nothing *)
+  mark_inline_tags [T 0 1 63; T 1 2 61; T 2 3 2001]%N = Ok [T 0 1 63; T 1 2 61; T 2 3 2001]%N /\
+  parse_inline_tag [T 0 1 63; T 1 2 61; T 2 6 5; T 6 7 2001; T 7 8 5; T 8 9 64; T 9 10 5]%N = Some 6 /\
+  (* JsDoc "// see {@link A} @returns b": inline tag marked, then everything from `@returns` on *)
+  jsdoc_post [T 0 3 5; T 3 4 2001; T 4 5 63; T 5 6 61; T 6 10 5; T 10 11 2001; T 11 12 5; T 12 13 64; T 13 14 2001;
+              T 14 15 61; T 15 22 5; T 22 23 2001; T 23 24 5]%N
+  = Ok [T 0 3 5; T 3 4 2001; T 4 5 2; T 5 6 2; T 6 10 2; T 10 11 2; T 11 12 2; T 12 13 2; T 13 14 2001;
+        T 14 15 2; T 15 22 2; T 22 23 2; T 23 24 2]%N.
 Proof. vm_compute. repeat split; reflexivity. Qed.
